@@ -387,7 +387,8 @@ fn edit_world(rng: &mut Rng, world: &FcWorld, info: &GenInfo, v1: &Observed, for
     w.add(url, "export type X = string;\n");
     return (w, "retrace: the later module stops requesting the failing member".into());
   }
-  let pkg_files: Vec<String> = world.files.keys().filter(|k| k.starts_with("https://jsr.io/") && !k.ends_with("meta.json")).cloned().collect();
+  let pkg_files: Vec<String> =
+    world.files.keys().filter(|k| (k.starts_with("https://jsr.io/") || k.starts_with("file:///ws/")) && !k.ends_with("meta.json")).cloned().collect();
   if pkg_files.is_empty() {
     w.add(&world.root.clone(), &format!("{}\n// edited\n", world.files[&world.root].0));
     return (w, "root".into());
@@ -638,7 +639,7 @@ pub fn run(cfg: &RunCfg) {
         let (world, info) = xstar_world(&mut rng);
         return relational_case(format!("xstar-{}", k), world, info, &mut rng, vec![("xstar_worlds".into(), 1)]);
       }
-      let (world, info) = gen_world(&mut rng, &GenCfg { max_pkgs: 4, fail_pct: 20, cross_pkg_star: true });
+      let (world, info) = gen_world(&mut rng, &GenCfg { max_pkgs: 4, fail_pct: 20, cross_pkg_star: true, workspace: false });
       return relational_case(format!("rel-{}", k), world, info, &mut rng, vec![]);
     }
     if k < n_corpus {
@@ -648,7 +649,8 @@ pub fn run(cfg: &RunCfg) {
       let (w, info, forced) = retrace_world(&mut rng);
       history_case(format!("retrace-{}", k), w, info, Some(forced), &mut rng, vec![("retrace_worlds".into(), 1)])
     } else {
-      let (mut world, info) = gen_world(&mut rng, &GenCfg { max_pkgs: 4, fail_pct: 35, cross_pkg_star: false });
+      let workspace = rng.chance(25);
+      let (mut world, info) = gen_world(&mut rng, &GenCfg { max_pkgs: 4, fail_pct: if workspace { 60 } else { 35 }, cross_pkg_star: false, workspace });
       // a module that is in the graph but never traced (side-effect import only)
       if let Some(p) = info.pkgs.first() {
         let entry = format!("{}mod.ts", p.base);
@@ -659,7 +661,11 @@ pub fn run(cfg: &RunCfg) {
           }
         }
       }
-      history_case(format!("gen-{}", k), world, info, None, &mut rng, vec![("generated_worlds".into(), 1)])
+      let mut dist = vec![("generated_worlds".to_string(), 1)];
+      if workspace {
+        dist.push(("generated_workspace_worlds".into(), 1));
+      }
+      history_case(format!("gen-{}", k), world, info, None, &mut rng, dist)
     }
   });
 }
